@@ -233,6 +233,45 @@ def h_shared_underlying(ctx, n):
                   info={"underlying": cls.__name__}, replay=(replay_shared_underlying, lambda m: {"path": _vals(m, path)}), timeout_ms=20000)
 
 
+def replay_rainbow(sc):
+    """real Rainbow call on the terminal spots of a 3-asset path: value = max(0, sum of weights x spots sorted from best to worst - strike),
+    and valuing the product leaves the path as it was (other products are valued on the same path)"""
+    path = np.array(sc.get("path") or [[100.0, 130.0], [100.0, 90.0], [100.0, 110.0]])
+    w, k = sc.get("weights") or [0.5, 0.3, 0.2], sc.get("strike", 100.0)
+    before = path.copy()
+    prod = PROD.Product(payoff_underlying=UND.Spot(), payoff=PAY.Rainbow(weights=w, strike=k, payoff_type=PT_.CALL), maturity=1.0)
+    u = prod.underlying_value(np.array([0.0, 1.0]), path, path)
+    got = float(prod(u))
+    want = max(0.0, float(np.dot(sorted(before[:, -1], reverse=True), w)) - k)
+    out = []
+    if abs(got - want) > 1e-9:
+        out.append(f"value {got!r} vs {want!r}")
+    if not np.array_equal(path, before):
+        out.append(f"the path was {before.tolist()} and is {path.tolist()} after the valuation")
+    return bool(out), f"Rainbow call, weights {w} (best to worst), strike {k}: " + ("; ".join(out) if out else "value right, path untouched")
+
+
+def h_rainbow(ctx, n_assets=2):
+    """a rainbow option on the terminal spots: value from the definition, and the path handed in is left as it was"""
+    path = np.empty((n_assets, 2), dtype=object)
+    for j in range(n_assets):
+        path[j, 0], path[j, 1] = ctx.real(f"s{j}_0"), ctx.real(f"s{j}_1")
+    snapshot = [[path[j, i] for i in range(2)] for j in range(n_assets)]
+    w = [ctx.real(f"w{j}") for j in range(n_assets)]
+    k = ctx.real("k")
+    prod = PROD.Product(payoff_underlying=UND.Spot(), payoff=PAY.Rainbow(weights=list(w), strike=k, payoff_type=PT_.CALL), maturity=1.0)
+    times = np.array([0.0, 1.0])
+    u = prod.underlying_value(times, path, path)
+    v = prod(u)
+    rp = (replay_rainbow, lambda m: {})
+    best = V.smax(snapshot[0][1], snapshot[1][1]) if n_assets == 2 else None
+    worst = V.smin(snapshot[0][1], snapshot[1][1]) if n_assets == 2 else None
+    ctx.prove("C17.rainbow_value_is_weighted_sorted_performance", EQ(v, V.smax(w[0] * best + w[1] * worst - k, 0.0)), info={"assets": n_assets}, replay=rp)
+    ctx.prove("C17.valuing_a_product_leaves_the_path_unchanged", AND(*[EQ(path[j, i], snapshot[j][i]) for j in range(n_assets) for i in range(2)]), info={"payoff": "Rainbow"}, replay=rp)
+    v2 = prod(prod.underlying_value(times, path, path))
+    ctx.prove("C17.second_valuation_on_the_same_path_gives_the_same_value", EQ(v2, v), info={"payoff": "Rainbow"}, replay=rp)
+
+
 def h_asian(ctx, n):
     path = sym_path(ctx, n)
     times = sym_times(ctx, n)
@@ -499,6 +538,7 @@ def harnesses(tier):
         hs.append(Harness(f"barrier.mlmc_pair.{bt}", h_mlmc_barrier, {"n": 2, "bt": bt}, max_paths=20000, batch=20))
         hs.append(Harness(f"barrier.representation.{bt}", h_barrier_representation, {"n": 2, "bt": bt}, max_paths=20000, batch=20))
     hs.append(Harness("default.history", h_default_history, {"n": 2}, max_paths=4000, batch=20))
+    hs.append(Harness("rainbow", h_rainbow, max_paths=2000))
     hs.append(Harness("representation", h_representation, {"n": 2}, max_paths=2000))
     hs.append(Harness("representation.shared_underlying", h_shared_underlying, {"n": 2}, max_paths=2000))
     hs.append(Harness("twin", h_twin, twin="must_fail"))
@@ -519,7 +559,7 @@ ATTEMPTED = ["C17.attempted.average_is_the_time_weighted_mean_of_the_observation
 def main(tier):
     bounds = {"histories_and_variants": 'default-time underlyings valuing two symbolic paths (2 times, 2 names) in a row; one underlying object shared by two products',
               "paths": "length <= 3 (quick) / 4 (thorough), <= 2 assets; strikes, barriers, thresholds, notionals, times arbitrary reals (times increasing)",
-              "outside": "LookBack (raises by construction), Rainbow, CDS (C19), rate payoffs (Bond/Cap/Ratchet/Swaption), MaximumOfPerformances under LOG"}
+              "outside": "LookBack (raises by construction), Rainbow beyond 2 assets, CDS (C19), rate payoffs (Bond/Cap/Ratchet/Swaption), MaximumOfPerformances under LOG"}
     return run_check(PID, tier, harnesses(tier), expect=EXPECT, attempted=ATTEMPTED, bounds=bounds,
                      assumptions=COMMON_ASSUMPTIONS + ["exp/log as UFs with exp(log x) = x, log(exp x) = x, monotone"])
 
